@@ -124,6 +124,10 @@ class AsyncioTransportStreamSocketAdapter(AsyncStreamTransport):
         # removed (sendmsg() reports 0 byte sent for it), so the write callback would be called in a busy loop
         # and transport.close() would never complete.
         self.__transport.writelines([data for data in iterable_of_data if memoryview(data).nbytes])
+        # Unlike write(), writelines() does not always check if the protocol must be paused
+        # (e.g. asyncio's selector transport in CPython 3.12.1): the data would silently pile up in memory.
+        # Applying the limits again runs this check, and is a no-op if nothing is left in the write buffer.
+        self.__transport.set_write_buffer_limits(0)
         await self.__protocol.writer_drain()
 
     async def send_eof(self) -> None:
